@@ -19,7 +19,9 @@ assumptions = [
     "mark the object destroyed instead of freeing it) and on the element finalisers of library heap buffers; library rawdata "
     "objects have no callback: early/late destruction shows only as an ASan/LSan report",
     "counter values 0, max-1, max are reached by presetting the harness objects' counter, never by 2^64 operations",
-    "reply contexts (mptcore/event/reply_deferrable.c), stream inputs and the C++ reference<T> template are not driven here",
+    "reply contexts (part k), notifier inputs (part n), output_local targets (r lo), the C++ reference<T>/unique_array "
+    "templates (part x) and the library's unshareable metatypes (part g) are driven with driver-local model code: the "
+    "theorems of Props/C15.lean cover the history machine of part r (Op) and the handle operations of part x (XOp) only",
 ]
 trusted = ["hand-written model MptModel/Impl/Refcount.lean tied to misc/refcount.c, meta_reference_traits.c, array_traits.c, "
            "array_clone.c, data_converter.c (_mpt_metatype_wrap), buffer_alloc.c (addref/unref), rawdata_create.c by harness/drv_refcount.c"]
@@ -316,7 +318,49 @@ class _NN:
     finding_key = staticmethod(lambda script, res: finding_key(script, res))
 
 
-extra_parts = [_XX, _KK, _NN]
+class _GG:
+    """fifth part: the library's own (unshareable) metatype implementations mpt_meta_geninfo (meta/meta_geninfo.c) and
+    mpt_meta_buffer (array/meta_buffer.c) through harness/drv_refmeta.c; the buffer metatype holds a reference to a
+    harness buffer with a logging vtable"""
+    id = "C15"
+    area = "refcount"
+    driver = "drv_refmeta"
+    cxx = False
+    fixed_lines = 1
+
+    @staticmethod
+    def corpus(chk):
+        return [(n, s_) for n, s_ in gen.corpus(id) if s_ and s_[0].startswith("g ")]
+
+    @staticmethod
+    def scripts(tier, seed, scale=1):
+        out = []
+        ops = ["g new info", "g new mbuf", "g addref 0", "g take 0", "g wrap 0", "g clone 0", "g clone 1", "g unref 0", "g unref 1",
+               "g take 1", "g addref 1", "g drop"]
+        for pre in ("1", "2", "0", "max-1", "max"):
+            for first in ("g new mbuf", "g new info"):
+                for hist in itertools.product(ops, repeat=3 if tier == "quick" else 4):
+                    out.append(("gg:%s:%s:%s" % (pre, first[6:], "|".join(x[2:] for x in hist)),
+                                ["g begin", "g buf " + pre, first] + list(hist) + ["g end"]))
+        r = gen.rng(id, tier, seed, "gg-random")
+        rops = ["g new info", "g new mbuf"] + ["g %s %d" % (o, m) for o in ("addref", "take", "wrap", "clone", "unref") for m in range(5)] + ["g drop"]
+        for k in range((300 if tier == "quick" else 4000) * scale):
+            lines = ["g begin", "g buf " + r.choice(["1", "1", "2", "3", "0", "max-1", "max"])]
+            for _ in range(r.choice([4, 8, 16])):
+                lines.append(r.choice(rops))
+            lines.append("g end")
+            out.append(("ggrnd:%d" % k, lines))
+        return out
+
+    @staticmethod
+    def nontrivial(script, c_lines):
+        return any("D " in ln or ln.startswith("R refused") or ln.startswith("R ret=0") for ln in c_lines)
+
+    tally = staticmethod(lambda chk, script, c_lines: tally(chk, script, c_lines))
+    finding_key = staticmethod(lambda script, res: finding_key(script, res))
+
+
+extra_parts = [_XX, _KK, _NN, _GG]
 
 
 def nontrivial(script, c_lines):
